@@ -49,6 +49,16 @@ def run_prog_property(ck, pid, prop_file, kinds, n_gen_quick, n_gen_thorough, st
     import lowertie
     lowertie.tie_pass(ck, sources, max_programs=160 if quick else 3000)
     issues, stats = PC.compare(recs)
+    # the one sampled step (TSem = Sem.v) on many more inputs for a subset: scenario programs + some generated ones
+    deep_src = [x for x in sources if len(x[1]) < 1200][:: max(1, len(sources) // (30 if quick else 300))][:30 if quick else 300]
+    deep = PC.run_programs(ck, deep_src, pid.lower() + ".deep", ninputs=120 if quick else 400)
+    dissues, dstats = PC.compare(deep)
+    issues += dissues
+    stats["deep_programs"] = dstats["compiled"]
+    stats["deep_evaluations"] = dstats["evaluations"]
+    stats["evaluations"] += dstats["evaluations"]
+    for key in ("tsem_compared", "tsem_outside", "outside_model", "model_ok", "model_panic"):
+        stats[key] = stats.get(key, 0) + dstats.get(key, 0)
     nviol = 0
     other_kinds = {}
     for rec, cfg, k, kind, m, r in issues:
